@@ -3,7 +3,7 @@ CONSTANTS
   Versions <- VersionsAll
   Family = "sib"
   ShapeIds <- ShapesC03
-  VariantIds <- Variants12
+  VariantIds <- Variants125
   MaxOps = 0
   Alphabet <- NoOps
   PreOps <- PreSibQuick
